@@ -14,3 +14,47 @@ pub fn combine_sources_leap(
 ) -> Option<(Vec<u64>, Option<NtpLeapIndicator>)> {
     combine(&selection.0, algo_config).map(|c| (c.sources.iter().map(|id| id.0).collect(), c.leap_indicator))
 }
+
+// ---------------------------------------------------------------- update_clock control-logic harnesses (lead)
+/// Ghost parameters of the `combine` model (safe Rust: atomics). The harness sets them up front.
+pub static MODEL_SOME: std::sync::atomic::AtomicBool = std::sync::atomic::AtomicBool::new(false);
+pub static MODEL_OFFSET: std::sync::atomic::AtomicU64 = std::sync::atomic::AtomicU64::new(0);
+pub static MODEL_FREQ: std::sync::atomic::AtomicU64 = std::sync::atomic::AtomicU64::new(0);
+pub static MODEL_VAR_OFFSET: std::sync::atomic::AtomicU64 = std::sync::atomic::AtomicU64::new(0);
+pub static MODEL_VAR_FREQ: std::sync::atomic::AtomicU64 = std::sync::atomic::AtomicU64::new(0);
+/// 0 NoWarning, 1 Leap61, 2 Leap59, 3 Unknown, anything else: no majority (None)
+pub static MODEL_LEAP: std::sync::atomic::AtomicU8 = std::sync::atomic::AtomicU8::new(255);
+pub static MODEL_CALLS: std::sync::atomic::AtomicU8 = std::sync::atomic::AtomicU8::new(0);
+
+/// Environment model of `combine` (used as a `#[kani::stub]` replacement): ignores its inputs and
+/// returns an arbitrary (ghost-chosen) combination with one used source, or `None`.
+pub fn combine_model(_selection: &[SourceSnapshot], _algo_config: &AlgorithmConfig) -> Option<Combine> {
+    use std::sync::atomic::Ordering::Relaxed;
+    MODEL_CALLS.fetch_add(1, Relaxed);
+    if !MODEL_SOME.load(Relaxed) {
+        return None;
+    }
+    let leap = match MODEL_LEAP.load(Relaxed) {
+        0 => Some(NtpLeapIndicator::NoWarning),
+        1 => Some(NtpLeapIndicator::Leap61),
+        2 => Some(NtpLeapIndicator::Leap59),
+        3 => Some(NtpLeapIndicator::Unknown),
+        _ => None,
+    };
+    Some(Combine {
+        estimate: KalmanState {
+            state: super::super::matrix::Vector::new_vector([
+                f64::from_bits(MODEL_OFFSET.load(Relaxed)),
+                f64::from_bits(MODEL_FREQ.load(Relaxed)),
+            ]),
+            uncertainty: super::super::matrix::Matrix::new([
+                [f64::from_bits(MODEL_VAR_OFFSET.load(Relaxed)), 0.0],
+                [0.0, f64::from_bits(MODEL_VAR_FREQ.load(Relaxed))],
+            ]),
+            time: crate::NtpTimestamp::default(),
+        },
+        sources: vec![ClockId(77)],
+        delay: NtpDuration::ZERO,
+        leap_indicator: leap,
+    })
+}
